@@ -32,6 +32,8 @@ def run(ctx):
             res2 = ctx.component('K-CLI(the binary on all 8 variants vs the library variant of the reference table)', lines, model=False)
             if res2:
                 ctx.extra['cli_identification'] = cli.run_and_compare(ctx, ctx.bdir, metas, res2['impl'])
+            # ... and against the Gallina front end the theorem C19_cli_switches_independent speaks about
+            cli.compare_with_model(ctx, ctx.bdir, metas, name='K-CLI(model, 8 selections)', check_created=False)
     # translator self-test: the two built-in mutations of a scratch copy must make Properties_C19 fail
     detected = 0
     wd = vf.workdir()
